@@ -18,6 +18,7 @@ import core_codemods.sonar.results as sonar_results
 from codemodder.codetf import Finding, Rule
 from codemodder.result import LineInfo, Location, Result, ResultSet
 from crosshair.tracers import NoTracing
+from vlib import vfs
 from vlib.core import NoLog, fin, tier
 from vlib.main import Xh
 
@@ -288,8 +289,9 @@ def _run_sonar(data):
         def __exit__(self, *a):
             return False
 
+    vfs.json_file("f.json", data)  # also reachable through builtins.open / Path.read_text + json.load(s)
     sonar_results.open = lambda *a, **k: F()
-    sonar_results.json = type("J", (), {"load": staticmethod(lambda f: data)})
+    sonar_results.json = type("J", (), {"load": staticmethod(lambda f: data), "loads": staticmethod(lambda s_: data)})
     try:
         rs = sonar_results.SonarResultSet.from_json.__wrapped__(sonar_results.SonarResultSet, "f.json")
     finally:
@@ -379,8 +381,9 @@ def semgrep_reader(r1: Tuple[int, int, int, int, int, int], r2: Tuple[int, int, 
         def __exit__(self, *a):
             return False
 
+    vfs.json_file("x.sarif", data)
     semgrep_mod.open = lambda *a, **k: F()
-    semgrep_mod.json = type("J", (), {"load": staticmethod(lambda f: data)})
+    semgrep_mod.json = type("J", (), {"load": staticmethod(lambda f: data), "loads": staticmethod(lambda s_: data)})
     try:
         rs = semgrep_mod.SemgrepResultSet.from_sarif("x.sarif", truncate_rule_id=truncate)
     finally:
@@ -429,8 +432,9 @@ def codeql_reader(r1: Tuple[int, int, int, int, int, int], r2: Tuple[int, int, i
         def __exit__(self, *a):
             return False
 
+    vfs.json_file("x.sarif", data)
     codeql_mod.open = lambda *a, **k: F()
-    codeql_mod.json = type("J", (), {"load": staticmethod(lambda f: data)})
+    codeql_mod.json = type("J", (), {"load": staticmethod(lambda f: data), "loads": staticmethod(lambda s_: data)})
     try:
         rs = codeql_mod.CodeQLResultSet.from_sarif("x.sarif")
     finally:
@@ -464,8 +468,9 @@ def defectdojo_reader(r1: Tuple[int, int, int, int], r2: Tuple[int, int, int, in
         def __exit__(self, *a):
             return False
 
+    vfs.json_file("x.json", data)
     dd_results.open = lambda *a, **k: F()
-    dd_results.json = type("J", (), {"load": staticmethod(lambda f: data)})
+    dd_results.json = type("J", (), {"load": staticmethod(lambda f: data), "loads": staticmethod(lambda s_: data)})
     try:
         rs = dd_results.DefectDojoResultSet.from_json.__wrapped__(dd_results.DefectDojoResultSet, "x.json")
     finally:
